@@ -29,6 +29,7 @@ class Std(Scenario):
         self.budgets = dict(g('budgets', {}))
         self.pub_qos = g('pub_qos', (0, 1, 2))
         self.pub_retain = g('pub_retain', (False,))
+        self.pub_kinds = g('pub_kinds', ())
         self.bandwidths = g('bandwidths', ())
         self.sub_shapes = g('sub_shapes', ('str',))
         self.unsub_shapes = g('unsub_shapes', ('str',))
@@ -147,6 +148,8 @@ class Std(Scenario):
                         for q in self.pub_qos:
                             for rt in self.pub_retain:
                                 out.append(('pub', a, q) if not rt else ('pub', a, q, True))
+                            for pk in self.pub_kinds:
+                                out.append(('pub', a, q, False, pk))
                     if left('setbw') > 0:
                         for (b, f) in self.bandwidths:
                             out.append(('setbw', a, b, f))
